@@ -206,7 +206,10 @@ Definition subscribe_codes (e : env) (v : view) (o : sop) (ob : opobs) : list N 
      then [(if en_faults e then 690   (* a pending identical subscription, stale since a faulted transition, was reused *)
             else if en_setschema e && is_time r then b + 7 else b + 5)%N] else [])
     ++ (if is_sctx o && negb (N.eqb (oo_tick ob) (tick_of (v_clock v) (hd 0 (op_states o))))
-        then [(if v_window v then 675 else if en_setschema e then 677 else 673)%N] else []).
+        then [(if v_window v then 675 else if en_setschema e then 677
+              (* the context of an instance that survived the re-tick of a faulted
+                 transition (2:672) is handed out again *)
+              else if en_faults e then 672 else 673)%N] else []).
 
 Definition new_track (e : env) (k : nat) (v : view) (o : sop) : track :=
   let r := resolve_op v o in
